@@ -4,7 +4,7 @@ from . import gen_c01, oracles
 
 class GraphProp:
     def __init__(self, pid, gen, owner, compare, reach, signature=None, fault_rate=0.12,
-                 simplify=None, variants=None):
+                 simplify=None, variants=None, shard=None):
         self.pid = pid
         self.gen = gen
         self.owner = owner
@@ -14,6 +14,7 @@ class GraphProp:
         self.fault_rate = fault_rate
         self.simplify = simplify
         self.variants = variants
+        self.shard = shard      # case -> str: the JIT-specialisation class a case belongs to
 
 
 def default_signature(case, violation):
@@ -30,7 +31,8 @@ GRAPH_PROPS = {}
 
 
 def _register():
-    GRAPH_PROPS["C01"] = GraphProp("C01", gen_c01.gen_case, gen_c01.owner, oracles.c01, gen_c01.reach)
+    GRAPH_PROPS["C01"] = GraphProp("C01", gen_c01.gen_case, gen_c01.owner, oracles.c01, gen_c01.reach,
+                                   shard=gen_c01.shard)
     try:
         from . import gen_c03
         GRAPH_PROPS["C03"] = GraphProp("C03", gen_c03.gen_case, gen_c03.owner, gen_c03.compare,
